@@ -52,7 +52,7 @@ def handle (toks : List String) : String :=
       let opts : C01Regions.Opts := ⟨bit o 0, bit o 1, bit o 2, bit o 3, bit o 4, bit o 5, bit o 6, bit o 7, bit o 8, bit o 9, bit o 10, bit o 11, bit o 12, bit o 13, bit o 14, bit o 15⟩
       let facts : C01Regions.Facts := ⟨bit f 0, bit f 1, bit f 2, bit f 3, bit f 4, bit f 5, bit f 6, bit f 7, bit f 8, bit f 9, bit f 10, bit f 11⟩
       let err : C01Regions.Err :=
-        if e == "cmp" then .cmp else if e == "e0423" then .e0423 else if e == "e0530" then .e0530
+        if e == "cmp" then .cmp else if e == "e0423" then .e0423 else if e == "e0530" then .e0530 else if e == "e0530static" then .e0530static
         else if e == "e0588" then .e0588 else if e == "e0793" then .e0793 else if e == "emptyUnion" then .emptyUnion
         else if e == "layoutAssert" then .layoutAssert else if e == "layoutPanic" then .layoutPanic
         else if e == "missingDebug" then .missingDebug else if e == "e0133" then .e0133 else if e == "e0054" then .e0054 else if e == "unresolved" then .unresolved
